@@ -20,20 +20,22 @@ LEVEL_TEXT = (
     " and on every non-raising path builds a value of that form from one created value per part, in order; the "
     "stack mapper is interpreted too (sa/rules/stackmodel.py: a scripted sequence of target types, base values "
     "that remember their kind, try/except followed): what is built for a production with an int, a tuple, a list "
-    "or a refined field is one value of the declared form per field; (R2) no generator / map / filter / zip "
-    "object flows into a field, a constructor argument list, a stack or a return; (R3) every decider's random_int"
-    " / random_float / random_bool returns exactly int / float / bool (mypy types plus inferred return kinds "
-    "through unannotated helpers), and what random_float returns is a float whatever the kind of its bounds - a "
-    "true division, arithmetic with a float operand or a float-returning draw on every path, followed through "
-    "helper functions (a bound handed back unchanged would put an int into a float field); (R4) every chooser is "
-    "abstractly interpreted (affine domain, helper methods inlined, 'a or b' fall-backs, emptiness branches) and "
-    "on every path returns random.choice of / an element of the offered alternatives or a comprehension-filtered "
-    "copy; a chooser the affine engine cannot follow is instead interpreted by the finite-model interpreter on "
-    "three alternatives with scripted distances and must return one of them; (R5) every loop or comprehension "
-    "over the declared fields whose result reaches the constructor contributes exactly one constructor argument "
-    "per field on every path; (R6) explicit raises reachable from the representation entry points are the "
-    "library's own error types or are caught; (R7) the readers of class declarations keep no cache; (R8) creation"
-    " model (sa/rules/creationmodel.py): random_node is interpreted with each real decider object (constructors "
+    "or a refined field is one value of the declared form per field, and an attempt that fails midway leaves no "
+    "value on a stack of another type; (R2) no generator / map / filter / zip object flows into a field, a "
+    "constructor argument list, a stack or a return; (R3) every decider's random_int / random_float / random_bool"
+    " returns exactly int / float / bool (mypy types plus inferred return kinds through unannotated helpers), and"
+    " what random_float returns is a float whatever the kind of its bounds - a true division, arithmetic with a "
+    "float operand or a float-returning draw on every path, followed through helper functions (a bound handed "
+    "back unchanged would put an int into a float field), and every random source's random_bool / randint returns"
+    " exactly a bool / an int (the deciders hand the value through); (R4) every chooser is abstractly interpreted"
+    " (affine domain, helper methods inlined, 'a or b' fall-backs, emptiness branches) and on every path returns "
+    "random.choice of / an element of the offered alternatives or a comprehension-filtered copy; a chooser the "
+    "affine engine cannot follow is instead interpreted by the finite-model interpreter on three alternatives "
+    "with scripted distances and must return one of them; (R5) every loop or comprehension over the declared "
+    "fields whose result reaches the constructor contributes exactly one constructor argument per field on every "
+    "path; (R6) explicit raises reachable from the representation entry points are the library's own error types "
+    "or are caught; (R7) the readers of class declarations keep no cache; (R8) creation model "
+    "(sa/rules/creationmodel.py): random_node is interpreted with each real decider object (constructors "
     "interpreted) over ALL decision scripts on four model grammars, limits up to 3 (thorough: 4): every "
     "producible program is well-typed for the grammar; (R9) every refinement of a list type is interpreted on "
     "list[X] for X a symbol, a list, a refined symbol and a union: every element is created through the callback "
